@@ -18,6 +18,27 @@ CHECKS = {
  "C07": ("exploration", "stateful property-based testing: generated request histories over 7 front-ends executed sequentially and in concurrent batches against a fresh-process reference; fault part with pre-existing output files; same-file spellings",
          "Histories of (front-end, document, config) requests against the library, the svgdx binary (4 I/O modes) and one long-lived svgdx-server, compared with a reference transform in a fresh process; failing requests must leave a pre-existing output file byte-identical; output==input spellings (./, absolute, d/../, symlink, hard link) must be refused.",
          "Interleavings are sampled, not enumerated (the harness does not own the tokio/OS scheduler); --watch is not exercised; the server's documented 400 for empty output is not compared.", "DESIGN.md §6 C07"),
+ "C08": ("exploration", "property-based testing: generated documents; oracle = independent geometric recomputation of the content extent from the parsed output",
+         "Generated rooted documents over all rendered element kinds, transforms, clips, uses, boxes, points, defs/specs/symbol content and forward references x border, scale and the 8 subsets of author-supplied width/height/viewBox with units; the extent is recomputed from the output's own geometry and compared with the synthesised root attributes.",
+         "Non-rendered containers outside defs, transform+clip on one element and text metrics are outside the generated domain; rounding is accepted either way within 0.0015 of an integer.", "DESIGN.md §6 C08"),
+ "C09": ("exploration", "property-based testing against an independent reference layout model (f64) with propagated rounding-error bounds",
+         "Generated reference DAGs and chains (depth up to 60) over the full relspec table; every element's expected box is computed by a model written from the layout reference and compared with the geometry read from the output.",
+         "Forms the documentation does not pin down are not generated (listed in evidence assumptions); tolerance is the propagated 3-decimal printing error.", "DESIGN.md §6 C09"),
+ "C10": ("exploration", "metamorphic property-based testing: all n! sibling permutations (n <= 5, exhaustive) or 60 sampled orders must reproduce the baseline geometry; negative family must fail in every order",
+         "Generated side-effect-free reference DAGs with connector/surround/expression referrers; the all-backward order is the baseline (itself checked against the C09 model); every permutation must succeed with identical per-id geometry and document-order output; unknown ids, cycles in every spelling and bbox-less targets must fail in every order.",
+         "Side effects (var, random, ^) are excluded by construction, so document order is the only varying factor.", "DESIGN.md §6 C10"),
+ "C11": ("exploration", "bounded-exhaustive enumeration of the discrete product (4 shapes x 36 constraint pairs x spellings x deltas) with seeded boxes; oracle = canonical native geometry and attribute-set check",
+         "Every combination of shape, per-axis constraint pair, shorthand/longhand spelling, separator, one/two values and delta form is enumerated (exhaustive for the discrete part), each with several boxes; the output must carry exactly the shape's native attributes with the intended values.",
+         "Size deltas only where documented behaviour exists (rect, line with explicit lengths); circles get square boxes.", "DESIGN.md §6 C11"),
+ "C12": ("exploration", "property-based testing: geometric validity predicates (enclosure / containment, sampled boundaries) recomputed from the output",
+         "Generated lists of referenced shapes x container kinds x surround/inside x margin forms; surround must equal / circumscribe the union grown by the margin, inside must lie within every host and within the margin-shrunk intersection.",
+         "Percent margins may be taken of width or height; open known finding KF-C12-1 (round container inside round hosts) is excluded by exact signature.", "DESIGN.md §6 C12"),
+ "C13": ("exploration", "property-based testing + exhaustive 4x4 direction table: validity predicates over connector endpoints and segments recomputed from the output",
+         "Generated placements (9 sectors, overlapping, touching, nested) x endpoint specs x connector kinds; endpoints must sit on given points or realise the minimal candidate distance; h/v through the overlap middle; corner polylines axis-parallel and perpendicular at both ends.",
+         "Named locations on h/v connectors and corner locations / literals on corner polylines are outside the generated domain (statement clauses conflict / no direction exists).", "DESIGN.md §6 C13"),
+ "C14": ("exploration", "property-based testing against a reference expression evaluator (f32 op-by-op), a recomputed Pcg32 stream for once-ness, and a must-fail family of single-edit malformed expressions",
+         "Random ASTs over all operators and 42 numeric built-ins printed with minimal parentheses/whitespace in six attribute contexts; random-function occurrences in every context/loop/reuse compared with the harness's own PRNG stream; damaged expressions must fail the transform.",
+         "The reference uses the same IEEE f32 primitives as the implementation (the statement fixes single precision); open known finding KF-C14-1 (random function in a specs template) excluded by exact signature.", "DESIGN.md §6 C14"),
  "C02": ("exploration", "property-based testing: hostile-string injection at every value position; oracle = independent strict XML parser (sxml, cross-checked against expat)",
          "Generated-input search: every successful transform's output must be accepted by an independent strict XML 1.0 parser and have a proper <svg> root. Exploration is the right level: the property quantifies over all inputs and configurations, so it can be refuted by one input but never proved by testing.",
          "Trusts sxml (harness parser; differentially tested against Python expat in setup) and the generators' coverage of value positions; inputs on which the transform fails are outside the property.", "DESIGN.md §6 C02"),
